@@ -33,7 +33,23 @@ def slug(msg: str, words=7) -> str:
     return "-".join(ws[:words]) or "no-message"
 
 
-def classify(e: BaseException, stage: str):
+SPECIFIC = ("keyword-argument-repeated", "duplicate-argument", "cannot-assign-to", "outside-loop", "not-properly-in-loop",
+            "too-many")
+
+
+def slice_in_tuple(env, src):
+    """does the template contain a slice inside a tuple subscript (`x[a:b, c]`)?  CPython reports the code generated for
+    it with whatever message fits the surrounding expression, so this one cause is recognised on the template's AST"""
+    try:
+        from jinja2 import nodes
+
+        tree = env.parse(src)
+        return any(isinstance(i, nodes.Slice) for t in tree.find_all(nodes.Tuple) for i in t.items)
+    except Exception:  # noqa
+        return False
+
+
+def classify(e: BaseException, stage: str, env=None, src=None):
     """(key suffix, description) of a non-syntax outcome; the key names class, innermost jinja2 frame and message kind"""
     cls = type(e).__name__
     tb = traceback.extract_tb(e.__traceback__)
@@ -44,7 +60,9 @@ def classify(e: BaseException, stage: str):
         return f"{cls}:{stage}", f"{cls} (innermost jinja2 frame {site})"
     if isinstance(e, SyntaxError):  # Python's: from compile() of the generated code or from literal_eval in the lexer
         kind = slug(e.msg or "")
-        if kind in ("invalid-syntax", "invalid-syntax-perhaps-you-forgot-a-comma") and e.text and e.offset:
+        if site == "environment._compile" and not kind.startswith(SPECIFIC) and env is not None and slice_in_tuple(env, src):
+            kind = "slice-in-tuple-subscript"
+        elif kind in ("invalid-syntax", "invalid-syntax-perhaps-you-forgot-a-comma") and e.text and e.offset:
             rest = e.text[e.offset - 1:]
             m = re.match(r"[A-Za-z_]\w*|\S", rest)
             kind += ":at-" + (m.group(0) if m else "eol")
@@ -83,7 +101,7 @@ def judge(env, src: str, stage: str, also_raw=False):
     except BaseException as e:  # noqa: every other outcome is what the property forbids
         if isinstance(e, (KeyboardInterrupt, SystemExit)):
             raise
-        k, d = classify(e, stage)
+        k, d = classify(e, stage, env, src)
         return ("bad", k, d, tb_tail(e))
 
 
